@@ -38,6 +38,7 @@ def showOut : Out → String
   | .ok => "ok" | .guard => "guard" | .refused => "refused" | .noduty => "noduty"
   | .derr => "err" | .dnew => "new" | .ddup => "dup"
   | .rerr => "rerr" | .rok => "rok"
+  | .cok => "cok" | .cerr => "cerr" | .na => "na"
   | .done => "done" | .loaded => "loaded" | .empty => "empty"
 
 def parseSigners (s : String) : Option (List Nat) :=
@@ -58,7 +59,11 @@ def parseOp (ws : List String) : Option Op :=
     let sg ← (kv rest "s").bind parseSigners
     let ok ← kvBool rest "ok"
     let via ← kv rest "via"
-    pure (Op.decided h r root sg ok (via == "r"))
+    let sf := (kvBool rest "sf").getD false
+    pure (if sf then Op.decidedSF h r root sg ok (via == "r") else Op.decided h r root sg ok (via == "r"))
+  | "commits" :: rest => do
+    let root ← kvNat rest "root"; let vc ← kvBool rest "vc"
+    pure (Op.commits root vc)
   | _ => none
 
 def stepLine (st : Option (State × Bool)) (line : String) : Option (State × Bool) × String :=
